@@ -75,18 +75,19 @@ class Char(V):
 
 class Agg(V):
     """struct / tuple / array / closure. fields: dict index -> V (treated as immutable)."""
-    __slots__ = ('kind', 'ty', 'fields', 'lazy')
+    __slots__ = ('kind', 'ty', 'fields', 'lazy', 'nm')
 
-    def __init__(self, kind, ty, fields, lazy=False):
+    def __init__(self, kind, ty, fields, lazy=False, nm=None):
         self.kind = kind
         self.ty = ty
         self.fields = fields
         self.lazy = lazy
+        self.nm = nm      # stable name of a lazily materialised value (children are named after it, not after the cell)
 
     def with_field(self, i, v):
         d = dict(self.fields)
         d[i] = v
-        return Agg(self.kind, self.ty, d, self.lazy)
+        return Agg(self.kind, self.ty, d, self.lazy, self.nm)
 
     def __repr__(self):
         return 'Agg(%s %s %r%s)' % (self.kind, self.ty, self.fields, ' lazy' if self.lazy else '')
@@ -94,13 +95,14 @@ class Agg(V):
 
 class EnumV(V):
     """discr: python int (concrete variant index) or z3 BitVec(64).  payload: {variant_idx: {field_idx: V}}"""
-    __slots__ = ('ty', 'discr', 'payload', 'lazy')
+    __slots__ = ('ty', 'discr', 'payload', 'lazy', 'nm')
 
-    def __init__(self, ty, discr, payload=None, lazy=False):
+    def __init__(self, ty, discr, payload=None, lazy=False, nm=None):
         self.ty = ty
         self.discr = discr
         self.payload = payload or {}
         self.lazy = lazy
+        self.nm = nm
 
     def discr_expr(self):
         if isinstance(self.discr, int):
